@@ -86,36 +86,59 @@ vp_free(void *p)
     do {                   \
     } while (0)
 
+/* harness-side access: the real pointers (ASan checks them) */
+#define vp_node_view(p) ((const struct sx_node *)(p))
+#define vp_pair_view(p) ((const struct sx_pair *)(p))
+#define vp_sym_view(p) ((const char *)(p))
+#define vp_sym_block_size(p) ((size_t)-1) /* ASan knows */
+#define vp_canaries_ok() true
+
 #else /* CBMC mode */
 
 enum { VP_SLOT_UNUSED = 0, VP_SLOT_LIVE = 1, VP_SLOT_FREED = 2 };
 
-/* Every slot is an object of its own (not an element of a pool array): a
- * store through an allocated pointer then is a choice between whole objects
- * at offset 0. With pool arrays the slot index is symbolic after the first
- * branch, and CBMC encodes a store to a union member at a symbolic array
- * index as a byte-wise update of the whole array (measured: 4-6 M variables
- * for ONE list step at LEN 1). */
-#define VP_MAXSLOTS 12
+/* Pools are arrays, but a slot is always addressed with a CONSTANT index
+ * (chosen by a chain of comparisons on the bump counter), never with a
+ * symbolic one. Measured / observed with cbmc 6.11:
+ *  - symbolic index: a store to a union member at a symbolic array index is
+ *    encoded as a byte-wise update of the whole array (4-6 M variables for
+ *    ONE list step at LEN 1);
+ *  - one object per slot (or malloc): a store through a pointer that was read
+ *    from a union member of one of SEVERAL objects is silently lost
+ *    (`c->data.pair->car = a` with c in {n0, n1, n2}: all pointer checks pass,
+ *    the value goes to an "invalid_object"; reproducer:
+ *    cbmc_union_store_repro.c in this directory), so that model is not usable;
+ *  - constant index into one array, index chosen at run time: stores arrive
+ *    (the tree comparisons of the list instances would fail otherwise) and
+ *    the encoding is cheap;
+ *  - the same with a FULLY concrete text (every slot index a compile-time
+ *    constant for symex): the pointer stored in the union is folded to an
+ *    integer and the store through it is lost again. That is why there are
+ *    no fixed-text instances. A lost store shows as a spurious failure that
+ *    does not replay (reported UNCONFIRMED, exit 2), not as a silent pass. */
+#define VP_MAXSLOTS 16
 #if NNODES > VP_MAXSLOTS || NPAIRS > VP_MAXSLOTS || NSYMS > VP_MAXSLOTS
 #error "pool bound above VP_MAXSLOTS"
 #endif
-#define VP_SLOTS(T, name)                                                      \
-    static T name##0, name##1, name##2, name##3, name##4, name##5, name##6,    \
-        name##7, name##8, name##9, name##10, name##11
 #define VP_SLOT_ADDRS(name)                                                    \
-    { &name##0, &name##1, &name##2, &name##3, &name##4, &name##5, &name##6,    \
-      &name##7, &name##8, &name##9, &name##10, &name##11 }
+    { &name[0], &name[1], &name[2], &name[3], &name[4], &name[5], &name[6],    \
+      &name[7], &name[8], &name[9], &name[10], &name[11], &name[12], &name[13], \
+      &name[14], &name[15] }
 
+/* An octet block of n octets is the LAST n octets of its slot's c[], followed
+ * by two canary octets: a write just past the requested size is visible
+ * (vp_canaries_ok) although the pool is one object for CBMC's bounds check. */
 struct vp_symslot {
     char c[SYMSZ];
+    unsigned char canary[2];
 };
-VP_SLOTS(struct sx_node, vp_node_);
-VP_SLOTS(struct sx_pair, vp_pair_);
-VP_SLOTS(struct vp_symslot, vp_sym_);
+static struct sx_node vp_node_[VP_MAXSLOTS];
+static struct sx_pair vp_pair_[VP_MAXSLOTS];
+static struct vp_symslot vp_sym_[VP_MAXSLOTS];
 static unsigned char vp_node_state[VP_MAXSLOTS];
 static unsigned char vp_pair_state[VP_MAXSLOTS];
 static unsigned char vp_sym_state[VP_MAXSLOTS];
+static unsigned char vp_sym_size[VP_MAXSLOTS]; /* requested size of the block */
 static unsigned vp_node_next, vp_pair_next, vp_sym_next;
 
 /* bound of the instance exceeded: classified like a loop bound (inconclusive) */
@@ -125,17 +148,21 @@ static unsigned vp_node_next, vp_pair_next, vp_sym_next;
 /* slot k of at most n (n is a compile-time constant: slots >= n fold away, so
  * the pointer's value set has exactly n members) */
 #define VP_PICK(name, k, n)                                                    \
-    ((n) > 11 && (k) == 11 ? (void *)&name##11 :                               \
-     (n) > 10 && (k) == 10 ? (void *)&name##10 :                               \
-     (n) > 9 && (k) == 9 ? (void *)&name##9 :                                  \
-     (n) > 8 && (k) == 8 ? (void *)&name##8 :                                  \
-     (n) > 7 && (k) == 7 ? (void *)&name##7 :                                  \
-     (n) > 6 && (k) == 6 ? (void *)&name##6 :                                  \
-     (n) > 5 && (k) == 5 ? (void *)&name##5 :                                  \
-     (n) > 4 && (k) == 4 ? (void *)&name##4 :                                  \
-     (n) > 3 && (k) == 3 ? (void *)&name##3 :                                  \
-     (n) > 2 && (k) == 2 ? (void *)&name##2 :                                  \
-     (n) > 1 && (k) == 1 ? (void *)&name##1 : (void *)&name##0)
+    ((n) > 15 && (k) == 15 ? (void *)&name[15] :                               \
+     (n) > 14 && (k) == 14 ? (void *)&name[14] :                               \
+     (n) > 13 && (k) == 13 ? (void *)&name[13] :                               \
+     (n) > 12 && (k) == 12 ? (void *)&name[12] :                               \
+     (n) > 11 && (k) == 11 ? (void *)&name[11] :                               \
+     (n) > 10 && (k) == 10 ? (void *)&name[10] :                               \
+     (n) > 9 && (k) == 9 ? (void *)&name[9] :                                  \
+     (n) > 8 && (k) == 8 ? (void *)&name[8] :                                  \
+     (n) > 7 && (k) == 7 ? (void *)&name[7] :                                  \
+     (n) > 6 && (k) == 6 ? (void *)&name[6] :                                  \
+     (n) > 5 && (k) == 5 ? (void *)&name[5] :                                  \
+     (n) > 4 && (k) == 4 ? (void *)&name[4] :                                  \
+     (n) > 3 && (k) == 3 ? (void *)&name[3] :                                  \
+     (n) > 2 && (k) == 2 ? (void *)&name[2] :                                  \
+     (n) > 1 && (k) == 1 ? (void *)&name[1] : (void *)&name[0])
 
 /* One function per kind of block, so that the pointer a call site receives
  * can only point to blocks of that kind (value sets are per return value). */
@@ -182,12 +209,15 @@ vp_alloc_bytes(size_t n, bool zero)
     }
     struct vp_symslot *p = VP_PICK(vp_sym_, vp_sym_next, NSYMS);
     vp_sym_state[vp_sym_next] = VP_SLOT_LIVE;
+    vp_sym_size[vp_sym_next] = (unsigned char)n;
     vp_sym_next++;
     for (size_t k = 0; k < SYMSZ; ++k)
         p->c[k] = zero ? 0 : (char)vp_junk;
+    p->canary[0] = 0xA5;
+    p->canary[1] = 0x5A;
     vp_live++;
     vp_allocs++;
-    return p->c;
+    return p->c + (SYMSZ - n);
 }
 
 /* The request sizes in sx.c are compile-time constants, so the selection
@@ -218,7 +248,6 @@ vp_free(void *p)
         return;
     static void *const nodes[VP_MAXSLOTS] = VP_SLOT_ADDRS(vp_node_);
     static void *const pairs[VP_MAXSLOTS] = VP_SLOT_ADDRS(vp_pair_);
-    static void *const syms[VP_MAXSLOTS] = VP_SLOT_ADDRS(vp_sym_);
     for (unsigned k = 0; k < NNODES; ++k)
         if (p == nodes[k]) {
             vp_free_slot(vp_node_state, k);
@@ -230,11 +259,83 @@ vp_free(void *p)
             return;
         }
     for (unsigned k = 0; k < NSYMS; ++k)
-        if (p == syms[k]) {
+        if (p == (void *)(vp_sym_[k].c + (SYMSZ - vp_sym_size[k]))) {
             vp_free_slot(vp_sym_state, k);
             return;
         }
     vp_bad_free++;
+}
+
+/* Harness-side access to blocks the code under test produced. The harness
+ * never dereferences a pointer it read from a node's union directly: CBMC's
+ * value set for such a pointer is the union of everything ever stored in any
+ * member (and "unknown" for the integer member), which turns every access
+ * into a byte-wise case split over foreign objects (measured: +1.3 M
+ * variables per level of sx_destroy recursion). Instead the pointer is
+ * compared with the slot addresses and the slot is accessed by name. */
+static int
+vp_index_in(const void *p, void *const *tab, unsigned n)
+{
+    int r = -1;
+    for (unsigned k = 0; k < n; ++k)
+        if (p == tab[k])
+            r = (int)k;
+    return r;
+}
+
+static const struct sx_node *
+vp_node_view(const struct sx_node *p)
+{
+    static void *const tab[VP_MAXSLOTS] = VP_SLOT_ADDRS(vp_node_);
+    const int k = vp_index_in(p, tab, NNODES);
+    if (k < 0 || vp_node_state[k] != VP_SLOT_LIVE)
+        return NULL;
+    return (const struct sx_node *)VP_PICK(vp_node_, k, NNODES);
+}
+
+static const struct sx_pair *
+vp_pair_view(const struct sx_pair *p)
+{
+    static void *const tab[VP_MAXSLOTS] = VP_SLOT_ADDRS(vp_pair_);
+    const int k = vp_index_in(p, tab, NPAIRS);
+    if (k < 0 || vp_pair_state[k] != VP_SLOT_LIVE)
+        return NULL;
+    return (const struct sx_pair *)VP_PICK(vp_pair_, k, NPAIRS);
+}
+
+static const char *
+vp_sym_view(const char *p)
+{
+    int k = -1;
+    for (unsigned j = 0; j < NSYMS; ++j)
+        if (p == vp_sym_[j].c + (SYMSZ - vp_sym_size[j]))
+            k = (int)j;
+    if (k < 0 || vp_sym_state[k] != VP_SLOT_LIVE)
+        return NULL;
+    return ((const struct vp_symslot *)VP_PICK(vp_sym_, k, NSYMS))->c + (SYMSZ - vp_sym_size[k]);
+}
+
+/* octets the code under test asked for in the block p points to (0: not a block) */
+static size_t
+vp_sym_block_size(const char *p)
+{
+    size_t n = 0;
+    for (unsigned j = 0; j < NSYMS; ++j)
+        if (p == vp_sym_[j].c + (SYMSZ - vp_sym_size[j]))
+            n = vp_sym_size[j];
+    return n;
+}
+
+/* nothing was written just past an octet block */
+static bool
+vp_canaries_ok(void)
+{
+    bool ok = true;
+    for (unsigned j = 0; j < NSYMS; ++j)
+        if (vp_sym_state[j] != VP_SLOT_UNUSED
+            && (vp_sym_[j].canary[0] != 0xA5 || vp_sym_[j].canary[1] != 0x5A))
+            ok = false;
+    return ok;
 }
 
 /* exact byte-loop strchr (the library's own model would be added after the
@@ -252,7 +353,94 @@ strchr(const char *s, int c)
 
 #endif /* VP_REPLAY */
 
+/* ---- sx_destroy by contract (list-layer instances) -------------------- */
+/* Contract of sx_destroy(&h): h == NULL: nothing happens; otherwise every
+ * block of the tree h owns (nodes, pair cells, symbol strings; absent
+ * children allowed) is released exactly once and h is cleared. The function
+ * below IS that contract, executed on the ledger. c20_destroy.c proves, by
+ * structural induction, that the real sx_destroy body satisfies it. A
+ * malformed argument (shared or foreign blocks) shows as vp_bad_free / a
+ * leak in the caller's final assertions.
+ *
+ * An "opaque subtree" (only c20_destroy.c creates them) is a node that stands
+ * for an arbitrary owned subtree of 1 + extra blocks. */
+static const void *vp_opaque_node[2];
+static unsigned vp_opaque_extra[2];
+
+static int
+vp_opaque_index(const void *p)
+{
+    if (p != NULL && p == vp_opaque_node[0])
+        return 0;
+    if (p != NULL && p == vp_opaque_node[1])
+        return 1;
+    return -1;
+}
+
+#define C20_DSTACK (NNODES + 1)
+
+static void
+c20_destroy_contract(struct sx_node **h)
+{
+    struct sx_node *stack[C20_DSTACK];
+    unsigned sp = 0;
+    if (*h == NULL)
+        return;
+    stack[sp++] = *h;
+    for (unsigned step = 0; step < NNODES; ++step) { /* one node per step */
+        if (sp == 0)
+            break;
+        struct sx_node *raw = stack[--sp];
+        const int o = vp_opaque_index(raw);
+        const struct sx_node *x = vp_node_view(raw);
+        if (x == NULL) { /* not a live node: foreign pointer or double release */
+            vp_bad_free++;
+            continue;
+        }
+        if (o >= 0) {
+            vp_live -= (int)vp_opaque_extra[o];
+        } else if (x->type == SXT_PAIR) {
+            const struct sx_pair *pp = vp_pair_view(x->data.pair);
+            if (pp == NULL) {
+                vp_bad_free++;
+            } else {
+                if (pp->cdr != NULL && sp < C20_DSTACK)
+                    stack[sp++] = pp->cdr;
+                if (pp->car != NULL && sp < C20_DSTACK)
+                    stack[sp++] = pp->car;
+                vp_free(x->data.pair);
+            }
+        } else if (x->type == SXT_SYMBOL) {
+            vp_free(x->data.symbol);
+        }
+        vp_free(raw);
+    }
+    if (sp != 0)
+        VP_POOL_EXCEEDED(); /* more nodes than the instance's bound */
+    *h = NULL;
+}
+
 /* ---- the real reader, unchanged text, with the allocator renamed ---- */
+#define C20_CAT_(a, b) a##b
+#define C20_CAT(a, b) C20_CAT_(a, b)
+#ifdef C20_DESTROY_BY_CONTRACT
+/* Every call of sx_destroy inside sx.c (recursive ones included) goes to the
+ * contract; the definition keeps its body under the name c20_real_sx_destroy.
+ * Mechanism: each occurrence of the identifier is renamed to c20_sxd_<k>, k
+ * counting occurrences; the FIRST occurrence in sx.c is the definition (the
+ * prototype comes from <ufw/sx.h>, which was read before). If sx.c ever
+ * uses sx_destroy before defining it, this no longer compiles (reported as
+ * inconclusive), it cannot mis-verify. */
+#if __COUNTER__ != 0
+#error "__COUNTER__ already used: cannot number the occurrences of sx_destroy"
+#endif
+#define C20_SXD(k) \
+    static void C20_CAT(c20_sxd_, k)(struct sx_node **h) { c20_destroy_contract(h); }
+C20_SXD(2) C20_SXD(3) C20_SXD(4) C20_SXD(5) C20_SXD(6) C20_SXD(7) C20_SXD(8) C20_SXD(9)
+C20_SXD(10) C20_SXD(11) C20_SXD(12) C20_SXD(13) C20_SXD(14) C20_SXD(15) C20_SXD(16)
+#define c20_real_sx_destroy c20_sxd_1
+#define sx_destroy C20_CAT(c20_sxd_, __COUNTER__)
+#endif
 #define malloc vp_malloc
 #define calloc vp_calloc
 #define free vp_free
@@ -260,6 +448,9 @@ strchr(const char *s, int c)
 #undef malloc
 #undef calloc
 #undef free
+#ifdef C20_DESTROY_BY_CONTRACT
+#undef sx_destroy
+#endif
 
 /* ---- exact-size input object ---------------------------------------- */
 /* The text occupies an object of exactly LEN octets: no terminator, nothing
